@@ -385,6 +385,13 @@ def replay_playback(h, prop, res):
 	rws = os.path.join(WORK, f"replay-ws-{os.getpid()}-{h.name}")
 	try:
 		sh(["rsync", "-a", "--delete", WS + "/", rws + "/"])
+		if h.crate == "verif_server":
+			# the mounted files' own #[cfg(test)] modules need dev-dependencies the harness crate does not have
+			for root, _d, files in os.walk(os.path.join(rws, "versatiles", "src", "tools", "server")):
+				for f in files:
+					if f.endswith(".rs"):
+						fp = os.path.join(root, f)
+						_write(fp, re.sub(r"#\[cfg\(test\)\]\s*\nmod tests", "#[cfg(any())]\nmod tests", _read(fp)))
 		modfile = harness_source_file(h, rws)
 		if not modfile:
 			return None, rpath, "harness source file not found for playback"
@@ -399,7 +406,7 @@ def replay_playback(h, prop, res):
 		_write(modfile, src)
 		out = []
 		reproduced = False
-		for profile in ("dev", "release"):
+		for profile in ("dev",):
 			cmd = ["cargo", "kani", "playback", "-Z", "concrete-playback", "-p", h.crate]
 			if profile == "release":
 				cmd += ["--release"]
@@ -414,7 +421,7 @@ def replay_playback(h, prop, res):
 			if failed:
 				reproduced = True
 		_write(rpath + ".native.log", "\n".join(out))
-		return reproduced, rpath, "native playback in dev and release profile"
+		return reproduced, rpath, "native playback (dev profile: overflow checks on)"
 	except Exception as e:  # noqa
 		return None, rpath, f"playback error: {e}"
 	finally:
@@ -423,8 +430,8 @@ def replay_playback(h, prop, res):
 
 def harness_source_file(h, ws):
 	"""Locate the file in the overlaid workspace that contains the harness function."""
-	crate_dir = os.path.join(ws, h.crate)
-	for root, _d, files in os.walk(os.path.join(crate_dir, "src")):
+	roots = [os.path.join(ws, h.crate, "src")] + [os.path.join(ws, d, "src") for d in sorted(os.listdir(ws)) if os.path.isdir(os.path.join(ws, d, "src")) and d != h.crate]
+	for root, _d, files in (x for r in roots for x in os.walk(r)):
 		for f in files:
 			if f.endswith(".rs"):
 				p = os.path.join(root, f)
